@@ -48,6 +48,7 @@ type RunOut struct {
 	Log        []string
 	Cfg        json.RawMessage
 	Sample     interface{}
+	Rel        []relRec
 }
 
 // Scenario is one simulated world kind.
@@ -89,6 +90,9 @@ func finish(w *World, o *RunOut) {
 	o.SimNanos = w.SimNanos()
 	o.Faults, o.Probes, o.Yields = w.Faults, w.Probes, w.Yields
 	o.Log = w.Trace
+	if w.rel != nil {
+		o.Rel = w.rel.Recs
+	}
 }
 
 func minimise(t *testing.T, sc Scenario, prop string, seed uint64, cfg json.RawMessage, out *RunOut) (steps []Step, tape []byte, best *RunOut) {
@@ -347,11 +351,33 @@ func Worker(t *testing.T) {
 // or a replay in a fresh process.
 func runSc(sc Scenario, t *testing.T, prop string, seed uint64, cfg json.RawMessage, steps []Step, tape []byte, trace bool) *RunOut {
 	sim.SeedRuntime(sim.Mix(seed ^ 0x71e5))
+	currentProp = prop
 	pendingReplay = nil
 	if steps != nil {
 		tp := tape
 		pendingReplay = &tp
 	}
 	defer func() { pendingReplay = nil }()
-	return sc.Run(t, prop, seed, cfg, steps, tape, trace)
+	o := sc.Run(t, prop, seed, cfg, steps, tape, trace)
+	if n, ok := sc.(Neutraliser); ok && prop == "C14" && o.Viol == nil {
+		// the neutral twin: same seed, steps and tape, initial sequence numbers mid-space
+		st, tp := o.Steps, o.Tape
+		if st == nil {
+			st = []Step{}
+		}
+		sim.SeedRuntime(sim.Mix(seed ^ 0x71e5))
+		pendingReplay = &tp
+		o2 := sc.Run(t, prop, seed, n.NeutralISS(o.Cfg), st, tp, false)
+		o.Probes["neutral_twin_runs"]++
+		o.Probes["tcp_segments_compared"] += int64(len(o.Rel))
+		switch {
+		case o2.Viol != nil:
+			o.Viol = &Violation{Class: "depends-on-initial-sequence-number", Detail: fmt.Sprintf("the run holds with the initial sequence numbers next to the wrap but its twin started mid-space fails with %s: %s", o2.Viol.Class, o2.Viol.Detail)}
+		default:
+			if d := relDiff(o.Rel, o2.Rel); d != "" {
+				o.Viol = &Violation{Class: "depends-on-initial-sequence-number", Detail: d}
+			}
+		}
+	}
+	return o
 }
